@@ -41,10 +41,12 @@ theorem idxOf_split (a b : List (K × Nat)) (k : K) (r : Nat) (hk : k ∉ dkeys 
     simp only [dkeys_cons, List.mem_cons, not_or] at hk
     have : ¬ p.1 = k := fun e => hk.1 e.symm
     simp only [List.cons_append, List.map_cons, List.length_cons]
-    rw [List.idxOf_cons_ne _ this]
+    rw [List.idxOf_cons]
+    have hb : (p.1 == k) = false := by simpa using this
+    rw [hb]
     have := ih hk.2
     simp only [List.map_append, List.map_cons] at this ⊢
-    omega
+    simp only [cond_false, this]
 
 theorem ddel_split (a b : List (K × Nat)) (k : K) (r : Nat) (hk : k ∉ dkeys a) :
     ddel (a ++ (k, r) :: b) k = a ++ b := by
@@ -56,16 +58,19 @@ theorem ddel_split (a b : List (K × Nat)) (k : K) (r : Nat) (hk : k ∉ dkeys a
     have : ¬ x = k := fun e => hk.1 e.symm
     simp [ddel, this, ih hk.2]
 
+theorem pyInsert_natCast {α : Type} (l : List α) (n : Nat) (x : α) (h : n ≤ l.length) :
+    pyInsert l (n : Int) x = l.take n ++ x :: l.drop n := by
+  unfold pyInsert
+  have h1 : ¬ ((n:Int) < 0) := by omega
+  have h2 : ¬ ((n:Int) > (l.length : Int)) := by omega
+  simp only [h1, h2, if_false, Int.toNat_natCast]
+
 /-- `index = keys().index(old); del d[old]; d.insert(index, new, r)` replaces the entry in place -/
 theorem rekey_split (a b : List (K × Nat)) (old new : K) (r : Nat) (hk : old ∉ dkeys a) :
     rekey (a ++ (old, r) :: b) old new r = a ++ (new, r) :: b := by
   unfold rekey
   rw [idxOf_split a b old r hk, ddel_split a b old r hk]
-  unfold pyInsert
-  have h1 : ¬ (Int.ofNat a.length < 0) := by simp
-  have h2 : ¬ (Int.ofNat a.length > ((a ++ b).length : Int)) := by
-    simp only [List.length_append, Int.ofNat_eq_natCast, gt_iff_lt, Int.not_lt]; omega
-  simp only [h1, h2, if_false, Int.toNat_natCast, Int.ofNat_eq_natCast]
+  rw [Int.ofNat_eq_natCast, pyInsert_natCast _ _ _ (by simp)]
   simp
 
 theorem mem_split_ne {a b : List (K × Nat)} {k : K} {r : Nat} {p : K × Nat}
